@@ -51,6 +51,33 @@ func (s *OutputBuilder) Build() string {
 	return s.builder.String()
 }
 
+// formatAlias renders the alias of an aliased expression as a single SQL token. An alias is the one identifier
+// position that can carry a name chosen by the query author (a Cypher result alias). Names made of ASCII letters,
+// digits, underscores and dollar signs that do not start with a digit or a dollar sign are written as they are, which
+// is how every generated name looks. Anything else is written as a delimited identifier with embedded double quotes
+// doubled, so that its characters cannot end the identifier and be read as SQL.
+func formatAlias(alias pgsql.Identifier) string {
+	var (
+		value       = alias.String()
+		needsQuotes = false
+	)
+
+	for idx, char := range value {
+		switch {
+		case char == '_', char >= 'a' && char <= 'z', char >= 'A' && char <= 'Z':
+		case idx > 0 && (char == '$' || (char >= '0' && char <= '9')):
+		default:
+			needsQuotes = true
+		}
+	}
+
+	if !needsQuotes {
+		return value
+	}
+
+	return `"` + strings.ReplaceAll(value, `"`, `""`) + `"`
+}
+
 func formatSlice[T any, TS []T](builder *OutputBuilder, slice TS, dataType pgsql.DataType) error {
 	builder.Write("array [")
 
@@ -446,7 +473,7 @@ func formatNode(builder *OutputBuilder, rootExpr pgsql.SyntaxNode) error {
 
 		case pgsql.AliasedExpression:
 			if typedNextExpr.Alias.Set {
-				exprStack = append(exprStack, typedNextExpr.Alias.Value)
+				exprStack = append(exprStack, pgsql.FormattingLiteral(formatAlias(typedNextExpr.Alias.Value)))
 				exprStack = append(exprStack, pgsql.FormattingLiteral(" as "))
 				exprStack = append(exprStack, typedNextExpr.Expression)
 			} else {
